@@ -206,6 +206,24 @@ func inter(a, b []string) []string {
 	return out
 }
 
+// outEnv: is environment e of the case a browser the target stands for, and with which
+// features is the OUTPUT evaluated in it?  The environment must understand every modelled
+// feature the target has (restricted to the input's features, the rest is added), and a
+// browser that understands nesting understands :is() (nesting is defined through it).
+func outEnv(c *Case, e Env, tg target) ([]string, bool) {
+	if !subset(inter(tg.feats, c.Feats), e.Feats) {
+		return nil, false
+	}
+	f := union(e.Feats, tg.feats)
+	if e.has("nesting") && !e.has("is") {
+		if subset([]string{"is"}, c.Feats) {
+			return nil, false
+		}
+		f = union(f, []string{"is"})
+	}
+	return f, true
+}
+
 func (v *Vocab) nodeConds(c *Case, e Env) map[string]bool {
 	m := map[string]bool{}
 	for a, t := range e.Conds {
@@ -310,13 +328,11 @@ func checkCases(r *core.Run, voc *Vocab, cases []*Case, stats *stats) {
 				continue
 			}
 			j := nodeJob{ID: fmt.Sprintf("%d/out%d", i, k), CSS: o.text, Universe: c.Props}
-			need := inter(tg.feats, c.Feats)
 			for ix, e := range c.Envs {
-				if !subset(need, e.Feats) {
-					continue
+				if f, ok := outEnv(c, e, tg); ok {
+					o.envIx = append(o.envIx, ix)
+					j.Envs = append(j.Envs, nodeEnv{Conds: voc.nodeConds(c, e), Feats: f})
 				}
-				o.envIx = append(o.envIx, ix)
-				j.Envs = append(j.Envs, nodeEnv{Conds: voc.nodeConds(c, e), Feats: union(e.Feats, tg.feats)})
 			}
 			o.jobID = j.ID
 			seen[dk] = j.ID
@@ -487,7 +503,7 @@ func judge(r *core.Run, voc *Vocab, i int, w *work, results map[string]*nodeResu
 }
 
 func Run(r *core.Run) {
-	r.Assume("browsers consistent with the configured target: an environment is judged only if it understands every modelled syntax feature esbuild's compat table attributes to the target (target unset = all features); :where() and multi-argument :not() are free for every explicit target")
+	r.Assume("browsers consistent with the configured target: an environment is judged only if it understands every modelled syntax feature esbuild's compat table attributes to the target (target unset = all features), and :is() if it understands nesting; :where() and multi-argument :not() are free for every explicit target")
 	r.Assume("the document is the fixed 8-element tree of Css.tla; dynamic pseudo-classes match nothing; one origin (author)")
 	r.Assume("nested rules come after their parent's declarations (no declarations after a nested rule); layers are not nested inside style rules; feature-using selectors are not put inside :is()/:where()/:not()")
 	r.Assume("values: exact notations only (named/hex/rgb()/hsl() on the 8-bit grid, alpha in {0,0.2,0.4,0.6,0.8,1}, terminating decimals, calc() over one unit or a linear combination); lab/lch/oklab/oklch/color-mix accuracy is not examined")
@@ -503,18 +519,24 @@ func Run(r *core.Run) {
 	var wg sync.WaitGroup
 	wg.Add(4)
 	go func() { defer wg.Done(); voc = loadVocab(r) }()
-	if os.Getenv("C12_SKIPMC") != "" { // development only
-		wg.Add(-3)
-		wg.Wait()
-		wg.Add(3)
-	}
+	skipMC := os.Getenv("C12_SKIPMC") != "" // development only
 	go func() {
 		defer wg.Done()
-		runMC(r, pickS(r, "CssMC.nest.cfg", "CssMC.nest3.cfg"), 2, nil)
+		if !skipMC {
+			runMC(r, pickS(r, "CssMC.nest.cfg", "CssMC.nest3.cfg"), 2, nil)
+		}
 	}()
-	go func() { defer wg.Done(); runMC(r, "CssMC.short.cfg", 1, nil) }()
 	go func() {
 		defer wg.Done()
+		if !skipMC {
+			runMC(r, "CssMC.short.cfg", 1, nil)
+		}
+	}()
+	go func() {
+		defer wg.Done()
+		if skipMC {
+			return
+		}
 		runMC(r, pickS(r, "CssMC.cascx.cfg", "CssMC.cascfull.cfg"), 4, func(c *Case) {
 			c.Family = "mc-casc"
 			mu.Lock()
@@ -635,11 +657,10 @@ func replay(r *core.Run, st *stats) {
 	if len(o.errs) == 0 {
 		tg := targetByName(o.cfg.Target)
 		j := nodeJob{ID: "0/out0", CSS: o.text, Universe: c.Props}
-		need := inter(tg.feats, c.Feats)
 		for ix, e := range c.Envs {
-			if subset(need, e.Feats) {
+			if f, ok := outEnv(c, e, tg); ok {
 				o.envIx = append(o.envIx, ix)
-				j.Envs = append(j.Envs, nodeEnv{Conds: voc.nodeConds(c, e), Feats: union(e.Feats, tg.feats)})
+				j.Envs = append(j.Envs, nodeEnv{Conds: voc.nodeConds(c, e), Feats: f})
 			}
 		}
 		o.jobID = j.ID
